@@ -4,3 +4,4 @@ import AtreeModel.Gen.ErrTable
 import AtreeModel.Basic
 import AtreeModel.Settings
 import AtreeModel.Storage
+import AtreeModel.StorageOps
